@@ -219,6 +219,15 @@ def check(ctx):
             ctx.inst('R4', f, 'completion:pop=%d,ok=%d,fail=%d,status0=%s' % (npop, ns, nf, st0), ok,
                      'on each path: request removed iff exactly one completion callback, success only for status 0, failure only otherwise; '
                      'path conditions %s' % conds[-4:])
+        # the entry that is removed is the one that was looked up: same table, same key (the memory id - the address of the reply
+        # is a different number that happens to have the same type)
+        looked = {norm(x.slice) for x in walk_own(f.node) if isinstance(x, ast.Subscript) and isinstance(x.ctx, ast.Load) and norm(x.value) == table}
+        pops_ = [c for c in walk_own(f.node) if method_call(c, 'pop') and norm(c.func.value) == table]
+        dels_ = [t for d_ in walk_own(f.node) if isinstance(d_, ast.Delete) for t in d_.targets if isinstance(t, ast.Subscript) and norm(t.value) == table]
+        keys_ = [norm(c.args[0]) for c in pops_ if c.args] + [norm(t.slice) for t in dels_]
+        if keys_:
+            ctx.inst('R4', f, 'removed-entry-is-the-one-looked-up', bool(looked) and all(k_ in looked for k_ in keys_),
+                     '%s: entries are looked up under %s and removed under %s' % (table, sorted(looked), sorted(set(keys_))))
         # success only when the request object says the transfer is complete: add_data / write_done answer True (done), False (more to
         # come) or None (reply for another address): the success path must test plain truth, `is False` / `is not False` let None through
         from ..cfg import implied as _implied
@@ -549,6 +558,7 @@ def deck_manager_rules(ctx):
 
 
 VARIANTS = [
+    M('R4', ME, "                self._read_requests.pop(id, None)\n                self.mem_read_failed_cb.call(rreq.mem, rreq.addr, rreq.data)", "                self._read_requests.pop(addr, None)\n                self.mem_read_failed_cb.call(rreq.mem, rreq.addr, rreq.data)", 'failed read removed under the address'),
     M('R10', DM, "                tmp_cb = self._read_failed_cb\n                self._clear_read_cb()\n                if tmp_cb is not None:\n                    tmp_cb(addr - self._read_base_address)",
       "                tmp_cb = self._read_failed_cb\n                if tmp_cb is not None:\n                    self._clear_read_cb()\n                    tmp_cb(addr - self._read_base_address)", 'record kept when no failure callback'),
     M('R10', DM, "            tmp_cb = self._write_complete_cb\n            self._clear_write_cb()\n            tmp_cb(addr - self._read_base_address)", "            tmp_cb = self._write_complete_cb\n            tmp_cb(addr - self._read_base_address)\n            self._clear_write_cb()", 'write record cleared after the callback'),
